@@ -158,6 +158,9 @@ def consumeCount (unionBelow : Nat) : DType → Nat → Nat × Nat
   | .fsb _, _ => (1, 2)
   | .utf8 _, _ => (1, 3)
   | .binary _, _ => (1, 3)
+  -- Utf8View/BinaryView: validity + views + `variadic_count` data buffers; modelled for count 0
+  -- (all strings inline); the general case is exercised by the `proj` op only
+  | .view _, _ => (1, 2)
   | .list _ item _, v => let c := consumeCount unionBelow item v; (1 + c.1, 2 + c.2)
   | .fsl _ item _, v => let c := consumeCount unionBelow item v; (1 + c.1, 1 + c.2)
   | .struct fs, v => let c := consumeFields unionBelow fs v; (1 + c.1, 1 + c.2)
@@ -197,6 +200,7 @@ def shapeOk (v : Nat) : DType → ArrayData → Bool
   | .fsb w, x => nodeOk v (.fsb w) x 1 && x.children.isEmpty
   | .utf8 l, x => nodeOk v (.utf8 l) x 2 && x.children.isEmpty
   | .binary l, x => nodeOk v (.binary l) x 2 && x.children.isEmpty
+  | .view u, x => nodeOk v (.view u) x 1 && x.children.isEmpty
   | .list l item n, x =>
     nodeOk v (.list l item n) x 1 && (match x.children with | [c] => shapeOk v item c | _ => false)
   | .fsl k item n, x =>
